@@ -51,6 +51,27 @@ claim("C16",
       "Trusted: python ast; comment leader table per emitter; library-level literalinclude2 excluded as the property states.",
       "DESIGN.md §4 C16")
 
+claim("C12",
+      "writer/reader sibling agreement and path-sensitive push/pop typestate over ast (marker constants, precedence "
+      "chain, splicer stack pairing on all feasible paths, reader state machine, merge sites, data-vs-directive rule)",
+      "Decides from the current source that the splicer markers written by _create_splicer are exactly what "
+      "get_splicers reads, that force > user > default precedence holds, that every _push_splicer is closed by a "
+      "_pop_splicer of the same name on every feasible path (so blocks land under the names the reader reconstructs), "
+      "that the reader keeps only rstrip()ped lines between markers, and that every splicer source is merged per "
+      "block. One genuine defect stays as known finding (trailing '+' of user lines eaten by the layout interpreter).",
+      "Trusted: python ast; path enumeration with correlated-branch pruning on stable parameters.",
+      "DESIGN.md §4 C12")
+claim("C13",
+      "structural analysis of write_lines/write_continue over ast (directive table extraction, slice-vs-test "
+      "agreement, path conservation with flag-constant feasibility, continuation marker and limit constants)",
+      "Decides the structural necessary conditions of the wrapping property: only tested, documented metacharacters "
+      "are ever removed, every arm writes the remaining text, only tab/form-feed/leading-CR are dropped as hints, on "
+      "every feasible path of the emission loop a part is appended or the path is the form-feed/empty-part path, the "
+      "pending line is written before being reset, broken lines carry self.cont, and default limits respect 132 "
+      "columns. The universally quantified functional statement over all strings/widths is not decided.",
+      "Trusted: python ast; documented directive set {# @ ^ + -} from docs/input.rst.",
+      "DESIGN.md §4 C13")
+
 PENDING = "check not built yet in this session (fail-closed: not claimed until its rules run clean)"
-for _p in ["C01","C02","C03","C06","C08","C09","C10","C11","C12","C13","C14","C17","C18"]:
+for _p in ["C01","C02","C03","C06","C08","C09","C10","C11","C14","C17","C18"]:
     na(_p, PENDING)
